@@ -274,6 +274,8 @@ class C08(Prop):
                     "delay": float(params["delay"]).hex()}
         except Exception as e:  # the quantified inputs never raise
             impl = {"raises": type(e).__name__, "msg": str(e)[:200]}
+        finally:
+            ctx.cleanup()                                      # the synthetic log is not needed any more
 
         def conv(res):
             if "raises" in res:
